@@ -156,7 +156,7 @@ func readTree(dec *json.Decoder) (any, error) {
 				if err != nil {
 					return nil, err
 				}
-				ms = append(ms, []any{abs.Bytes([]byte(k)), val})
+				ms = append(ms, []any{abs.Bytes([]byte(k)), val, k})
 			}
 			if _, err := dec.Token(); err != nil {
 				return nil, err
